@@ -13,6 +13,9 @@ def holds (pc : SPc) (tasks : List Kind) (u : TaskId) : Prop :=
   | .usContains t _ => t = u
   | .usFs t v .append => t = u ∨ v = u
   | .usFs t _ _ => t = u
+  | .ucLock t | .ucIsNone t | .ucCreate t | .ucContains t _ | .ucUnlock t | .ucAppend t | .ucPing t => t = u
+  | .ucFs t c .append => t = u ∨ c = u
+  | .ucFs t _ _ => t = u
   | _ => False
 
 structure InvU (s : State) : Prop where
@@ -28,6 +31,7 @@ structure InvU (s : State) : Prop where
   /-- no user task's program schedules the task itself (the documented exception of `schedule()`) -/
   noSelf : ∀ (t : Nat) (prog : List UItem), s.tasks[t]? = some (.user prog) → UItem.sched t ∉ prog
   usNe : ∀ t v, (s.s = .usContains t v ∨ ∃ p, s.s = .usFs t v p) → v ≠ t
+  ucS : ∀ t c, (s.s = .ucContains t c ∨ ∃ p, s.s = .ucFs t c p) → s.nUsers ≤ c
 
 theorem cltReadable_some {s : State} {c : TaskId} (h : cltReadable s = some c) : s.cltTask = some c := by
   simp only [cltReadable] at h
@@ -58,6 +62,28 @@ theorem count_cons_single {u t : Nat} {l : List Nat} (hc : l.count u ≤ 1) (hn 
   · have : (t == u) = false := by simp; exact fun e => h e.symm
     simp [List.count_cons, this, hc]
 
+/-- user-task entries of the heap are only ever shortened by the scheduler thread; nobody creates new ones -/
+def UStable (l l' : List Kind) : Prop :=
+  ∀ (t : Nat) (prog : List UItem), l'[t]? = some (Kind.user prog) → l[t]? = some (Kind.user prog)
+
+theorem UStable.refl (l : List Kind) : UStable l l := fun _ _ h => h
+
+theorem UStable.append (l : List Kind) (x : Kind) (hx : ∀ p, x ≠ .user p) : UStable l (l ++ [x]) := by
+  intro t prog h
+  rcases Nat.lt_trichotomy t l.length with hlt | heq | hgt
+  · rwa [List.getElem?_append_left hlt] at h
+  · subst heq; simp at h; exact absurd h (hx prog)
+  · rw [List.getElem?_eq_none (by simp; omega)] at h; cases h
+
+theorem UStable.set (l : List Kind) (k : Nat) (v : Kind) (hv : ∀ p, v ≠ .user p) : UStable l (l.set k v) := by
+  intro t prog h
+  rw [List.getElem?_set] at h
+  split at h
+  · split at h
+    · cases h; exact absurd rfl (hv prog)
+    · cases h
+  · exact h
+
 theorem noSelf_set {l : List Kind} {t : Nat} {old new : Kind}
     (h : ∀ (t : Nat) (prog : List UItem), l[t]? = some (.user prog) → UItem.sched t ∉ prog) (ht : l[t]? = some old)
     (hnew : ∀ p', new = .user p' → ∃ p, old = .user p ∧ ∀ x ∈ p', x ∈ p) :
@@ -69,13 +95,17 @@ theorem noSelf_set {l : List Kind} {t : Nat} {old new : Kind}
   · exact h t' prog' hl hm
 
 theorem stepS_U {s s' : State} (h : InvU s) (hs : stepS s = some s') : InvU s' := by
-  obtain ⟨hlen, hfsp, hclt, hhubS, hhubH, hstS, hcnt, hhold, hsig, hnoSelf, husNe⟩ := h
+  obtain ⟨hlen, hfsp, hclt, hhubS, hhubH, hstS, hcnt, hhold, hsig, hnoSelf, husNe, hucS⟩ := h
   s_cases hs s hpc
-  all_goals refine ⟨?_, hfsp, hclt, ?_, hhubH, ?_, ?_, ?_, ?_, ?_, ?_⟩
+  all_goals refine ⟨?_, hfsp, ?_, ?_, hhubH, ?_, ?_, ?_, ?_, ?_, ?_, ?_⟩
   all_goals first
     -- len
     | exact hlen
     | (show _ ≤ (List.set _ _ _).length; rw [List.length_set]; exact hlen)
+    | (show _ ≤ (_ ++ [_]).length; rw [List.length_append]; exact Nat.le_trans hlen (Nat.le_add_right _ _))
+    -- clt
+    | exact hclt
+    | (intro c hc; cases hc; exact hlen)
     -- noSelf
     | exact hnoSelf
     | exact noSelf_set hnoSelf (by assumption) (by
@@ -83,11 +113,15 @@ theorem stepS_U {s s' : State} (h : InvU s) (hs : stepS s = some s') : InvU s' :
         first
           | (cases hp'; done)
           | (cases hp'; exact ⟨_, rfl, fun x hx => List.mem_cons_of_mem _ hx⟩))
-    -- usNe
+    | exact fun t prog hl => hnoSelf t prog (UStable.append _ _ (by intro p hp; cases hp) t prog hl)
+    -- usNe / ucS
     | (intro a b hp; rcases hp with hp | ⟨p, hp⟩ <;> first
         | (cases hp; done)
         | (cases hp; exact husNe _ _ (Or.inl hpc))
         | (cases hp; exact husNe _ _ (Or.inr ⟨_, hpc⟩))
+        | (cases hp; exact hucS _ _ (Or.inl hpc))
+        | (cases hp; exact hucS _ _ (Or.inr ⟨_, hpc⟩))
+        | (cases hp; exact hlen)
         | (cases hp; intro e; subst e; rename_i heq; exact hnoSelf _ _ heq List.mem_cons_self))
     -- hubS / stS : the new program counter is not of that shape
     | (intro a b hp; cases hp; done)
@@ -97,6 +131,7 @@ theorem stepS_U {s s' : State} (h : InvU s) (hs : stepS s = some s') : InvU s' :
     | (intro a b hp; cases hp; exact hclt _ (cltReadable_some (by assumption)))
     -- stS
     | (intro a b hp; cases hp; exact ⟨_, _, by assumption⟩)
+    | (intro a b hp; cases hp; done)
     -- sig : not at the signal position
     | (intro a b c hp; cases hp; done)
     -- cnt
@@ -110,6 +145,8 @@ theorem stepS_U {s s' : State} (h : InvU s) (hs : stepS s = some s') : InvU s' :
     | (intro u hu; exact count_append_single (hcnt u hu)
         (fun e => hhold u hu (by rw [hpc]; simp only [holds]; exact Or.inr e.symm)))
     | (intro u hu; dsimp only at hu; exact count_append_single (hcnt u hu) (fun e => by have := hhubS _ _ hpc; omega))
+    | (intro u hu; dsimp only at hu; exact count_append_single (hcnt u hu)
+        (fun e => by have := hucS _ _ (Or.inr ⟨_, hpc⟩); omega))
     | (intro u hu; rename_i heq; exact count_cons_single (hcnt u hu)
         (fun e => hhold u hu (by rw [hpc]; simp only [holds]; exact ⟨_, e ▸ heq⟩)))
     -- hold : a task was popped / keeps being held
@@ -120,17 +157,24 @@ theorem stepS_U {s s' : State} (h : InvU s) (hs : stepS s = some s') : InvU s' :
     | (intro u hu hh; simp only [holds] at hh; rcases hh with hh | hh
        · subst hh; exact hhold _ hu (by rw [hpc]; simp only [holds])
        · subst hh; assumption)
+    | (intro u hu hh; dsimp only at hu; simp only [holds] at hh; rcases hh with hh | hh
+       · subst hh; exact hhold _ hu (by rw [hpc]; simp only [holds])
+       · subst hh; have := hucS _ _ (Or.inl hpc); omega)
     | (intro u hu hh hm; dsimp only at hh hm; simp only [holds] at hh; subst hh
        rcases List.mem_append.mp hm with hm | hm
        · exact hhold _ hu (by rw [hpc]; exact Or.inl rfl) hm
        · have := List.mem_singleton.mp hm; exact husNe _ _ (Or.inr ⟨_, hpc⟩) this.symm)
+    | (intro u hu hh hm; dsimp only at hh hm hu; simp only [holds] at hh; subst hh
+       rcases List.mem_append.mp hm with hm | hm
+       · exact hhold _ hu (by rw [hpc]; exact Or.inl rfl) hm
+       · have := List.mem_singleton.mp hm; have := hucS _ _ (Or.inr ⟨_, hpc⟩); omega)
     -- sig
     | (intro a b c hp hl; cases hp; rename_i heq; rw [heq] at hl; cases hl; exact List.mem_cons_self)
 
 theorem stepH_U {s s' : State} (h : InvU s) (hs : stepH s = some s') : InvU s' := by
-  obtain ⟨hlen, hfsp, hclt, hhubS, hhubH, hstS, hcnt, hhold, hsig, hnoSelf, husNe⟩ := h
+  obtain ⟨hlen, hfsp, hclt, hhubS, hhubH, hstS, hcnt, hhold, hsig, hnoSelf, husNe, hucS⟩ := h
   h_cases hs s hpc
-  all_goals refine ⟨hlen, hfsp, hclt, hhubS, ?_, hstS, ?_, ?_, ?_, hnoSelf, husNe⟩
+  all_goals refine ⟨hlen, hfsp, hclt, hhubS, ?_, hstS, ?_, ?_, ?_, hnoSelf, husNe, hucS⟩
   all_goals first
     -- hubH
     | (intro a b hp; cases hp; done)
@@ -174,29 +218,8 @@ theorem holds_stable {pc : SPc} {l l' : List Kind} {u : TaskId} (hst : StStable 
     | assert => exact h
     | signal => exact h
   | usFs t v p => cases p <;> exact h
+  | ucFs t c p => cases p <;> exact h
   | _ => exact h
-
-/-- user-task entries of the heap are only ever shortened by the scheduler thread; nobody creates new ones -/
-def UStable (l l' : List Kind) : Prop :=
-  ∀ (t : Nat) (prog : List UItem), l'[t]? = some (Kind.user prog) → l[t]? = some (Kind.user prog)
-
-theorem UStable.refl (l : List Kind) : UStable l l := fun _ _ h => h
-
-theorem UStable.append (l : List Kind) (x : Kind) (hx : ∀ p, x ≠ .user p) : UStable l (l ++ [x]) := by
-  intro t prog h
-  rcases Nat.lt_trichotomy t l.length with hlt | heq | hgt
-  · rwa [List.getElem?_append_left hlt] at h
-  · subst heq; simp at h; exact absurd h (hx prog)
-  · rw [List.getElem?_eq_none (by simp; omega)] at h; cases h
-
-theorem UStable.set (l : List Kind) (k : Nat) (v : Kind) (hv : ∀ p, v ≠ .user p) : UStable l (l.set k v) := by
-  intro t prog h
-  rw [List.getElem?_set] at h
-  split at h
-  · split at h
-    · cases h; exact absurd rfl (hv prog)
-    · cases h
-  · exact h
 
 theorem InvU.frameF {s s' : State} {i : Nat} {f f' : FThread} (h : InvU s) (hf : s.fs[i]? = some f)
     (hfs : s'.fs = s.fs.set i f') (hS : s'.s = s.s) (hH : s'.h = s.h) (hn : s'.nUsers = s.nUsers)
@@ -204,7 +227,7 @@ theorem InvU.frameF {s s' : State} {i : Nat} {f f' : FThread} (h : InvU s) (hf :
     (hclt : ∀ c, s'.cltTask = some c → s.cltTask = some c ∨ s.nUsers ≤ c)
     (hpc : ∀ ctx st p, f'.pc = .fsp ctx st p → (∃ ctx' p', f.pc = .fsp ctx' st p') ∨ s.nUsers ≤ st)
     (hready : s'.ready = s.ready ∨ ∃ t, s.nUsers ≤ t ∧ s'.ready = s.ready ++ [t]) : InvU s' := by
-  obtain ⟨h1, h2, h3, h4, h5, h6, h7, h8, h9, h10, h11⟩ := h
+  obtain ⟨h1, h2, h3, h4, h5, h6, h7, h8, h9, h10, h11, h12⟩ := h
   have hmem : ∀ u, u < s.nUsers → (u ∈ s'.ready ↔ u ∈ s.ready) := by
     intro u hu
     rcases hready with hr | ⟨t, ht, hr⟩
@@ -216,7 +239,8 @@ theorem InvU.frameF {s s' : State} {i : Nat} {f f' : FThread} (h : InvU s) (hf :
     · rw [hr]; exact hx
     · rw [hr]; exact List.mem_append_left _ hx
   refine ⟨by rw [hn]; omega, ?_, ?_, ?_, ?_, ?_, ?_, ?_, ?_, fun t prog hl => h10 t prog (hus t prog hl),
-    fun t v hp => h11 t v (by rw [hS] at hp; exact hp)⟩
+    fun t v hp => h11 t v (by rw [hS] at hp; exact hp),
+    fun t c hp => by rw [hn]; exact h12 t c (by rw [hS] at hp; exact hp)⟩
   · intro j g ctx st p hg hp
     rw [hn]; rw [hfs] at hg
     rcases set_cases hf hg with ⟨rfl, rfl⟩ | ⟨_, hg⟩
@@ -272,11 +296,11 @@ theorem stepF_U {s s' : State} {i : Nat} (h : InvU s) (hs : stepF s i = some s')
     | exact Or.inr ⟨_, h.fsp _ _ _ _ _ hf hpc, rfl⟩
 
 theorem stepT_U {s s' : State} {t : Tid} (h : InvU s) (hs : stepT s t = some s') : InvU s' := by
-  obtain ⟨hlen, hfsp, hclt, hhubS, hhubH, hstS, hcnt, hhold, hsig, hnoSelf, husNe⟩ := h
+  obtain ⟨hlen, hfsp, hclt, hhubS, hhubH, hstS, hcnt, hhold, hsig, hnoSelf, husNe, hucS⟩ := h
   t_cases hs s t hpc
   all_goals first
-    | exact ⟨hlen, hfsp, hclt, hhubS, hhubH, hstS, hcnt, hhold, hsig, hnoSelf, husNe⟩
-    | (refine ⟨hlen, hfsp, hclt, ?_, hhubH, ?_, hcnt, ?_, ?_, hnoSelf, ?_⟩ <;> first
+    | exact ⟨hlen, hfsp, hclt, hhubS, hhubH, hstS, hcnt, hhold, hsig, hnoSelf, husNe, hucS⟩
+    | (refine ⟨hlen, hfsp, hclt, ?_, hhubH, ?_, hcnt, ?_, ?_, hnoSelf, ?_, ?_⟩ <;> first
         | (intro a b hp; cases hp; done)
         | (intro a b c hp; cases hp; done)
         | (intro a b hp; rcases hp with hp | ⟨p, hp⟩ <;> (cases hp; done))
@@ -289,13 +313,14 @@ def usersOk (users : List (List UItem)) : Prop :=
 
 theorem init_U (threaded : Bool) (users : List (List UItem)) (progs : List (List Op)) (hok : usersOk users) :
     InvU (Handoff.init threaded users progs) := by
-  refine ⟨by simp [Handoff.init], ?_, ?_, ?_, ?_, ?_, ?_, ?_, ?_, ?_, ?_⟩
-  rotate_right 2
+  refine ⟨by simp [Handoff.init], ?_, ?_, ?_, ?_, ?_, ?_, ?_, ?_, ?_, ?_, ?_⟩
+  rotate_right 3
   · intro t prog hl
     simp only [Handoff.init, List.getElem?_map] at hl
     rcases hu : users[t]? with _ | q
     · simp [hu] at hl
     · simp [hu] at hl; subst hl; exact hok t q hu
+  · intro t v hp; rcases hp with hp | ⟨p, hp⟩ <;> cases hp
   · intro t v hp; rcases hp with hp | ⟨p, hp⟩ <;> cases hp
   · intro i f ctx st p hf hp; obtain ⟨q, rfl⟩ := init_fs hf; cases hp
   · intro c hc; cases hc
